@@ -299,6 +299,12 @@ def _cmp_atoms(c, p):
     if c.op != "cmp":
         return [("truth" if p else "falsy", c, None)]
     op, l, r = c.a
+    if op in ("is", "isnot") and (tm.is_const(l, None) or tm.is_const(r, None)):
+        other = r if tm.is_const(l, None) else l
+        if other.op == "call" and (call_name(other) or "").split(".")[-1] in ("match", "fullmatch", "search", "get"):
+            # `m is None` for the result of a regex match (a Match object or None) is `not m`
+            none_holds = (op == "is") == p
+            return [("falsy" if none_holds else "truth", other, None)]
     if not p:
         op = NEG[op]
     if op == ">=":
